@@ -11,7 +11,10 @@
      check | mcheck OFF HEX | tcheck LEN     cgio_check_file (ADF branch)   -> c N
      layout                        structures located by the model's decoders in the current file
      fields                        the field tables of file header and node header
-     witness NAME                  the witness files of AdfWalk.v (valid oobw oobr cycle linkrec biglink abort tagscan stale)
+     witness NAME                  the witness files of AdfWalk.v (valid oobw oobr cycle linkrec biglink abort tagscan stale
+                                   dct neglink hugelink toklink fmtneg dtov rtype dim sizes)
+     cfg BITS                      which repairs the modelled code contains: 11 characters 0/1 in the order of the record
+                                   AdfCodec.fixes (snt dct link nest fmt tag dtov rtype dim short sizes); default = all 0
      enc dp B O | enc hex N V | enc snt EB EO name:b:o;... | enc dct EB EO sb:so:eb:eo;... | enc data EB EO HEX
                                    encoders, with the open attributes of the current file      -> e HEXBYTES *)
 open Model
@@ -43,7 +46,7 @@ let print_ev (e:ev) = match e with
   | EvL r -> Printf.printf "L %s\n" (out_str hb r)
   | EvT t -> Printf.printf "T %s\n" (hb t)
   | EvD n -> Printf.printf "D %d\n" (int_of_z n)
-  | EvV l -> Printf.printf "V %s\n" (String.concat "," (List.map hz l))
+  | EvV r -> Printf.printf "V %s\n" (out_str (fun l -> String.concat "," (List.map hz l)) r)
   | EvC n -> Printf.printf "C %d\n" (int_of_z n)
   | EvX r -> Printf.printf "X %s\n" (out_str (fun (w, d) ->
         if int_of_z w = 0 then Printf.sprintf "ok %d %s" (List.length d) (hz (cksum d)) else "err " ^ string_of_int (int_of_z w)) r)
@@ -52,8 +55,14 @@ let print_ev (e:ev) = match e with
   | EvG r -> Printf.printf "G %s\n" (out_str pp r)
   | EvFuel -> print_string "FUEL\n"
 
+let cfg = ref legacy
+let set_cfg (b:string) =
+  let g i = String.length b > i && b.[i] = '1' in
+  cfg := { fx_snt = g 0; fx_dct = g 1; fx_link = g 2; fx_nest = g 3; fx_fmt = g 4; fx_tag = g 5; fx_dtov = g 6;
+           fx_rtype = g 7; fx_dim = g 8; fx_short = g 9; fx_sizes = g 10 }
+
 let do_walk fuel (bs:z list) =
-  (match walk (nat_of_int fuel) bs with
+  (match walk !cfg (nat_of_int fuel) bs with
    | WOpenFail r -> Printf.printf "open %s\n" (out_str (fun _ -> "?") r)
    | WOk (root, evs) -> Printf.printf "open ok %s\n" (pp root); List.iter print_ev evs);
   print_string "END\n"
@@ -73,35 +82,35 @@ let abspos (p:ptr) = let (b, o) = p in int_of_z b * 4096 + int_of_z o
 let layout (bs:z list) =
   let flen = List.length bs in
   Printf.printf "S fileheader 0\nS fct 186\n";
-  (match database_open bs with
+  (match database_open !cfg bs with
    | Ok (f, root) ->
      let seen = Hashtbl.create 64 in
      let rec node (p:ptr) depth =
        let a = abspos p in
        if depth < 40 && not (Hashtbl.mem seen a) && a < flen then begin
          Hashtbl.add seen a ();
-         match read_node_header f p with
+         match read_node_header !cfg f p with
          | Ok h ->
            Printf.printf "S node %d nsub=%d entries=%d ndims=%d nchunks=%d type=%s name=%s\n" a (int_of_z h.nh_nsub)
              (int_of_z h.nh_entries) (int_of_z h.nh_ndims) (int_of_z h.nh_nchunks) (hb (take 2 h.nh_dtype)) (hb h.nh_name);
            (if int_of_z h.nh_nchunks = 1 then
-              (match read_chunk_length f h.nh_data with
+              (match read_chunk_length !cfg f h.nh_data with
                | Ok (_, e) -> Printf.printf "S data %d end=%d\n" (abspos h.nh_data) (abspos e) | _ -> ())
             else if int_of_z h.nh_nchunks > 1 then
-              (match read_chunk_length f h.nh_data with
+              (match read_chunk_length !cfg f h.nh_data with
                | Ok (_, e) ->
                  Printf.printf "S dct %d end=%d n=%d\n" (abspos h.nh_data) (abspos e) (int_of_z (dct_count h.nh_data e));
-                 (match read_dct f h.nh_data (z_of_int 100000) with
+                 (match read_dct {!cfg with fx_dct = false} f h.nh_data (z_of_int 100000) with
                   | Ok tbl -> List.iter (fun (s, en) ->
-                      (match read_chunk_length f s with
+                      (match read_chunk_length !cfg f s with
                        | Ok (_, e2) -> Printf.printf "S data %d end=%d tblend=%d\n" (abspos s) (abspos e2) (abspos en) | _ -> ())) tbl
                   | _ -> ())
                | _ -> ()));
            if int_of_z h.nh_nsub > 0 then
-             (match read_chunk_length f h.nh_snt with
+             (match read_chunk_length !cfg f h.nh_snt with
               | Ok (_, e) ->
                 Printf.printf "S snt %d end=%d n=%d parent=%d\n" (abspos h.nh_snt) (abspos e) (int_of_z (snt_count h.nh_snt e)) a;
-                (match read_sub_node_table f h.nh_snt (z_of_int 100000) with
+                (match read_sub_node_table {!cfg with fx_snt = false} f h.nh_snt (z_of_int 100000) with
                  | Ok tbl -> List.iteri (fun i (nm, cp) ->
                      if i < int_of_z h.nh_nsub then begin
                        Printf.printf "S child %d -> %d parent=%d\n" (abspos h.nh_snt + 16 + 44 * i) (abspos cp) a;
@@ -120,7 +129,7 @@ let parse_ptr s = match String.split_on_char ':' s with
 let run () =
   let base = ref [] in
   let attr () = (mkfile !base).f_attr in
-  let attr () = match database_open !base with Ok (f, _) -> f.f_attr | _ -> attr () in
+  let attr () = match database_open !cfg !base with Ok (f, _) -> f.f_attr | _ -> attr () in
   (try while true do
     let line = input_line stdin in
     match String.split_on_char ' ' (String.trim line) with
@@ -128,6 +137,7 @@ let run () =
       Printf.printf "r %s\n" (out_str (fun v -> "ok " ^ hz v) (hex2uint (z_of_hexstr mn) (z_of_hexstr mx) (bytes_of_hex s)))
     | ["dp"; s] -> Printf.printf "r %s\n" (out_str (fun p -> "ok " ^ pp p) (dp_from_hex (bytes_of_hex s)))
     | ["base"; s] -> base := bytes_of_hex s
+    | ["cfg"; b] -> set_cfg b
     | ["walk"; fu] -> do_walk (int_of_string fu) !base
     | ["mut"; fu; off; s] -> do_walk (int_of_string fu) (patch !base (int_of_string off) (bytes_of_hex s))
     | ["mutn"; fu; ps] -> do_walk (int_of_string fu) (patchn !base ps)
@@ -145,7 +155,9 @@ let run () =
     | ["witness"; nm] ->
       let w = (match nm with "valid" -> wit_valid | "oobw" -> wit_oobw | "oobr" -> wit_oobr | "cycle" -> wit_cycle
                            | "linkrec" -> wit_linkrec | "biglink" -> wit_biglink | "abort" -> wit_abort
-                           | "tagscan" -> wit_tagscan | "stale" -> wit_stale | _ -> []) in
+                           | "tagscan" -> wit_tagscan | "stale" -> wit_stale | "dct" -> wit_dct | "neglink" -> wit_neglink
+                           | "hugelink" -> wit_hugelink | "toklink" -> wit_toklink | "fmtneg" -> wit_fmtneg | "dtov" -> wit_dtov
+                           | "rtype" -> wit_rtype | "dim" -> wit_dim | "sizes" -> wit_sizes | _ -> []) in
       Printf.printf "w %s\n" (hb w)
     | ["attr"] -> let a = attr () in Printf.printf "a old=%d fmt=%d os=%d\n" (if a.fa_old then 1 else 0) (int_of_z a.fa_fmt) (int_of_z a.fa_os)
     | ["enc"; "dp"; b; o] -> Printf.printf "e %s\n" (hb (dp_enc (attr ()) (z_of_hexstr b, z_of_hexstr o)))
